@@ -16,6 +16,10 @@ class Dut:
     from pymtl3.passes.mamba.HeuristicTopoPass import HeuristicTopoPass
     from pymtl3.passes.mamba.Mamba2020Pass import Mamba2020Pass
     from pymtl3.passes.mamba.UnrollSimPass import UnrollSimPass
+    # dump_dag() renders a graphviz picture into /tmp and opens a viewer before the passes raise
+    # UpblkCyclicError; it is a debugging aid with no effect on the verdict, so it is silenced here
+    import pymtl3.passes.sim.SimpleSchedulePass as _ssp
+    _ssp.dump_dag = lambda *a, **k: None
     self.ir = top_ir
     self.modname = None
     if cls is None:
